@@ -397,6 +397,44 @@ static int mode_enum(long depth, long worker, long workers, long split, long max
 	return 0;
 }
 
+static int mode_custom(long worker, long workers, long seed)
+{
+	if (!h_custom) {
+		fprintf(stderr, "harness %s has no custom mode\n", H_NAME);
+		return 2;
+	}
+	CustomOut o;
+	h_custom(worker, workers, seed, g_params, o);
+	std::ofstream f(g_out + ".stats.json");
+	f << "{\"harness\":\"" << H_NAME << "\",\"mode\":\"custom\",\"evaluations\":" << o.evaluations
+	  << ",\"nontrivial\":" << o.nontrivial << ",\"distinct_direct\":" << o.distinct
+	  << ",\"exhaustive\":" << (o.exhaustive ? "true" : "false") << ",\"classes\":{";
+	bool first = true;
+	for (auto &kv : o.classes) {
+		f << (first ? "" : ",") << "\"" << jesc(kv.first) << "\":" << kv.second;
+		first = false;
+	}
+	f << "},\"samples\":[";
+	first = true;
+	for (auto &s : o.samples) {
+		f << (first ? "" : ",") << "{\"pick\":\"custom\",\"case\":\"" << jesc(s) << "\"}";
+		first = false;
+	}
+	f << "],\"failed\":" << (o.failed ? "true" : "false");
+	if (o.failed)
+		f << ",\"failmsg\":\"" << jesc(o.failmsg) << "\"";
+	f << "}\n";
+	f.close();
+	if (o.failed) {
+		g_lastfail = o.fail_tape;
+		g_lastfail_msg = o.failmsg;
+		g_have_fail = true;
+		write_failure(false);
+		return 1;
+	}
+	return 0;
+}
+
 static bool parse_replay(const char *path, std::vector<uint32_t> &tape, bool &enumerating, std::string &harness)
 {
 	std::ifstream f(path);
@@ -544,6 +582,8 @@ int main(int argc, char **argv)
 		return mode_rc(seed, cases, maxsize, len);
 	if (mode == "enum")
 		return mode_enum(depth, worker, workers, split, maxruns);
+	if (mode == "custom")
+		return mode_custom(worker, workers, seed);
 	fprintf(stderr, "unknown mode\n");
 	return 2;
 }
